@@ -394,17 +394,35 @@ class Flow:
         self._if_rf = test_rf
         self.ev('if', s, test=test_rf)
         env0 = dict(self.env)
-        self.guards.append(Guard(s.test, True, test_rf, s))
+        # `if bad: raise ... else: work` / `if ok: work else: raise ...`: the side that does the work is not
+        # "conditional" - the other side rejects the input - so its test is recorded as a validation, not a guard
+        body_rejects = terminates(s.body) and exit_kinds(s.body) == {'raise'}
+        else_rejects = False       # `if mode == 'a': ... else: raise` is a dispatch: its test stays a guard
+
+        def push(g, validation):
+            g.early = validation
+            if validation:
+                g.exit = {'raise'}
+                self._valid = list(getattr(self, '_valid', [])) + [g]
+            else:
+                self.guards.append(g)
+
+        def pop(validation):
+            if validation:
+                self._valid = list(self._valid)[:-1]
+            else:
+                self.guards.pop()
+        push(Guard(s.test, True, test_rf, s), else_rejects and not body_rejects)
         self.assume(test_rf, True)
         tb = self.block(s.body)
-        self.guards.pop()
+        pop(else_rejects and not body_rejects)
         env_b = dict(self.env)
         self.conv.env.clear()
         self.conv.env.update(env0)
         self.assume(test_rf, False)
-        self.guards.append(Guard(s.test, False, test_rf, s))
+        push(Guard(s.test, False, test_rf, s), body_rejects and not else_rejects)
         to = self.block(s.orelse) if s.orelse else False
-        self.guards.pop()
+        pop(body_rejects and not else_rejects)
         env_o = dict(self.env)
         self._if_rf = test_rf
         if tb and to:
